@@ -66,7 +66,10 @@ FEATSETS = {
     "plain": ["Y0", "Y1", "Y2", "Y3"],
     "odd": ["memory score", "vol_left-hipp.", "été Δ₂", "a_b c"],  # spaces, underscore, dot, unicode
     "numeric": ["1", "2.5", "-3e1", "007"],  # numeric-looking strings
+    "int": [0, 1, 2, 3],  # integer column labels (accepted by fit / personalize / estimate / save / load)
+    "mixed": [10, "b", 2.5, "c d"],  # int, str and float labels in one table
 }
+NEW_FEATSETS = ("int", "mixed")  # quick tier: only with the default instance name
 HAND_SCALE = 1.000000123456789  # variant 3: values that need more than single precision
 # 2 memoryless iterations, then 3 averaged ones: with the default burn-in (90 %) every iteration of so short a run is
 # memoryless, the parameters are then *assigned* the current realisations and "population variable == mode of its
@@ -76,6 +79,21 @@ FIT_KW = dict(n_iter=5, n_burn_in_iter=2, progress_bar=False)
 
 # ------------------------------------------------------------------------------------------------------------
 # the enumerated space
+
+UPDATES = ("full", "partial")  # model.load_parameters(other values) on a model that already has parameters
+
+
+def update_parameters(case, model):
+    """The values given to load_parameters() in the 'updated in place' family: another catalogue vector for the
+    configuration the model actually has; 'partial' = every second parameter (sorted by name)."""
+    noise = model.observation_model_names[0]
+    variant = (case["variant"] + 1) % 3 if case["src"] == "hand" else 1
+    spec = dict(kind=case["kind"], dim=model.dimension, ns=model.source_dimension or 0, noise=noise, variant=variant)
+    new = copy.deepcopy(model_dict(spec)["parameters"])
+    if case["update"] == "partial":
+        new = {k: new[k] for i, k in enumerate(sorted(new)) if i % 2 == 0}
+    return new
+
 
 def name_alphabet(kind, full):
     """Instance names: the kind itself, a free name, the kind with another case, other kinds' names."""
@@ -126,7 +144,7 @@ def fit_cases(tier, seed):
                         if thorough or reduced:
                             for nm in name_alphabet(kind, thorough):
                                 for ft in FEATSETS:
-                                    if thorough or nm == kind or ft == "plain":
+                                    if thorough or (nm == kind and (ft not in NEW_FEATSETS or ns in (None, dim - 1))) or ft == "plain":
                                         combos.append((nm, ft))
                         seen = set()
                         for nm, ft in combos:
@@ -136,6 +154,10 @@ def fit_cases(tier, seed):
                             cases.append(dict(base, name=nm, feat=ft))
                         if seed != 0 and noise is None and dimgiven == "dimension":
                             cases.append(dict(base, name=kind, feat="plain", seed=int(seed)))
+                        # parameters updated in place after the fit (full vector / some parameters only)
+                        if kind != "mixture_logistic" and (thorough or (dimgiven == "dimension" and noise in (None, "gaussian-scalar"))):
+                            for update in UPDATES:
+                                cases.append(dict(base, name=kind, feat="plain", update=update))
     return cases
 
 
@@ -153,11 +175,17 @@ def hand_cases(tier, seed):
                             for ft in FEATSETS:
                                 if not thorough and variant in (1, 2) and (nm != kind and ft != "plain"):
                                     continue
+                                if not thorough and ft in NEW_FEATSETS and (nm != kind or variant != 0):
+                                    continue
                                 for via in ("factory", "dict"):
                                     if via == "dict" and nm != kind:
                                         continue  # a dictionary can only name the kind
                                     cases.append(dict(src="hand", kind=kind, dim=dim, ns=ns, noise=noise, variant=variant,
                                                       name=nm, feat=ft, via=via))
+                                    if nm == kind and ft == "plain" and (thorough or variant in (0, 3)):
+                                        for update in UPDATES:
+                                            cases.append(dict(src="hand", kind=kind, dim=dim, ns=ns, noise=noise,
+                                                              variant=variant, name=nm, feat=ft, via=via, update=update))
     cases.append(dict(src="hand", kind="mixture_logistic", dim=4, ns=2, noise="gaussian-diagonal", variant=0,
                       name="mixture_logistic", feat="file", via="dict"))
     return cases
@@ -212,6 +240,8 @@ def bounds(tier):
         "noise": [None, "gaussian-scalar", "gaussian-diagonal", "bernoulli (logistic kinds)"],
         "dimension_given_as": ["none", "dimension=", "features="],
         "feature_namings": {k: v[:3] for k, v in FEATSETS.items()},
+        "updates_in_place": "model (hand-written or fitted) -> load_parameters(another catalogue vector: full / every second "
+                            "parameter) -> all oracles with the new values as the reference",
         "instance_names": "kind, 'my-model', Kind (capitalised), other kinds' names",
         "parameter_sources": "fit(mcmc_saem, n_iter=5, n_burn_in_iter=2, seed 0 [+VERIF_SEED on the default sub-grid]) on the 5-individual "
                              "cohort; 4 hand-written vectors (3 catalogue variants + one needing double precision)",
@@ -428,7 +458,7 @@ def exc_text(e):
 # ------------------------------------------------------------------------------------------------------------
 # oracles
 
-def check_prior_mode(model, judge, feat):
+def check_prior_mode(model, judge, feat, site="fit"):
     st = model.state
     for name in model.population_variables_names:
         mean = name + "_mean"
@@ -436,8 +466,8 @@ def check_prior_mode(model, judge, feat):
             continue
         a, b = st[name], st[mean]
         if a is None or not (tuple(a.shape) == tuple(b.shape) and bool(torch.equal(a, b))):
-            judge.add("fit", "population variable differs from the mode of its prior", feat,
-                      f"after fit state[{name!r}] != state[{mean!r}]",
+            judge.add(site, "population variable differs from the mode of its prior", feat,
+                      f"after {site} state[{name!r}] != state[{mean!r}]",
                       expected=None if b is None else b.tolist(), observed=None if a is None else a.tolist())
 
 
@@ -503,11 +533,16 @@ def check_against_file(model, doc, case, judge, site, ips, ages, trajs):
             break
 
 
+def typed(features):
+    """Feature names by value AND type (JSON keeps int / float / str apart; so must a reloaded model)."""
+    return None if features is None else [[type(f).__name__, f] for f in features]
+
+
 def structure(model):
     s = {
         "class": type(model).__name__,
         "dimension": model.dimension,
-        "features": None if model.features is None else list(model.features),
+        "features": typed(model.features),
         "source_dimension": getattr(model, "source_dimension", None),
         "obs_models": list(getattr(model, "observation_model_names", [])),
     }
@@ -521,8 +556,9 @@ def check_file_vs_object(model, doc, case, judge, site):
     feat = config_feature(case)
     s = structure(model)
     for key in ("dimension", "features", "source_dimension"):
-        if key in doc and doc[key] != s[key]:
-            judge.add(site, f"file field {key} differs from the object", feat, f"{key}", expected=s[key], observed=doc[key])
+        got = typed(doc[key]) if key == "features" and key in doc else doc.get(key)
+        if key in doc and got != s[key]:
+            judge.add(site, f"file field {key} differs from the object", feat, f"{key}", expected=s[key], observed=got)
     if list(doc.get("obs_models", {}).values()) != s["obs_models"]:
         judge.add(site, "file field obs_models differs from the object", feat, "obs_models", expected=s["obs_models"],
                   observed=doc.get("obs_models"))
@@ -592,6 +628,32 @@ def compare_models(m1, m2, case, judge, site, ips, ages, trajs1):
 def build(case, judge):
     """Return (model, status); status is None when a model was obtained.  Any exception raised by a valid
     configuration while the model is constructed / given its parameters / fitted is a violation (site 'build')."""
+    model, status = build_first(case, judge)
+    if model is None or not case.get("update"):
+        return model, status
+    try:
+        with quiet():
+            before = {k: v.clone() for k, v in model.parameters.items()}
+            new = update_parameters(case, model)
+            model.load_parameters(copy.deepcopy(new))
+            after = model.parameters
+    except CaseTimeout:
+        raise
+    except Exception as e:
+        judge.add("build", type(e).__name__, config_feature(case), f"load_parameters({case['update']} update): {exc_text(e)}")
+        return None, f"build-raise:{type(e).__name__}"
+    feat = config_feature(case)
+    for k in before:
+        want = torch.tensor(flat_list(new[k]), dtype=torch.float64) if k in new else before[k]
+        if not same_f32(after[k], want):
+            kind_ = "updated parameter differs from the float32 rounding of the given number" if k in new else \
+                "parameter that was not given changed"
+            judge.add(f"load_parameters({case['update']} update)", kind_, feat, k, expected=as_f32(want).tolist(),
+                      observed=flat(after[k]).tolist())
+    return model, None
+
+
+def build_first(case, judge):
     kind, name = case["kind"], case["name"]
     feat = config_feature(case)
     stage = "model_factory"
@@ -715,8 +777,11 @@ def run_case(case, tmpdir):
             return dict(violations=judge.viol, outcome="build-unreadable", nontrivial=False, counts=counts)
         if case["src"] == "fit":
             counts["fits"] = 1
-            check_prior_mode(model, judge, feat)
-        elif kind != "mixture_logistic":
+        if case["src"] == "fit" or case.get("update"):
+            check_prior_mode(model, judge, feat, f"load_parameters({case['update']} update)" if case.get("update") else "fit")
+        if case.get("update"):
+            counts["updates in place"] = 1
+        elif case["src"] == "hand" and kind != "mixture_logistic":
             hand = hand_parameters(case)["parameters"]
             for k, v in model.parameters.items():
                 if k in hand and not same_f32(v, torch.tensor(flat_list(hand[k]), dtype=torch.float64)):
@@ -747,8 +812,8 @@ def run_case(case, tmpdir):
             counts["files"] = counts.get("files", 0) + 1
             if opt == "default":
                 check_file_vs_object(model, doc1, case, judge, site_s)
-                check_against_file(model, doc1, case, judge, "fitted model" if case["src"] == "fit" else "loaded model",
-                                   ips, ages, trajs1)
+                check_against_file(model, doc1, case, judge, "updated model" if case.get("update") else
+                                   "fitted model" if case["src"] == "fit" else "loaded model", ips, ages, trajs1)
             elif "mixing_matrix" in doc1.get("parameters", {}):
                 judge.add(site_s, "mixing_matrix written although not asked", feat, "parameters/mixing_matrix present")
             # ---- reload
@@ -788,7 +853,8 @@ def run_case(case, tmpdir):
             compare_documents(doc2, text2, doc3, text3, judge, case, counts, 3)
     status = "roundtrip-ok" if not judge.viol else "roundtrip-violations"
     dt = "f64" if any(v.dtype == torch.float64 for v in model.parameters.values()) else "f32"
-    return dict(violations=judge.viol, outcome=f"{case['src']}:{kind}:{status}:{dt}", nontrivial=ok_all, counts=counts)
+    src = case["src"] + ("+update" if case.get("update") else "")
+    return dict(violations=judge.viol, outcome=f"{src}:{kind}:{status}:{dt}", nontrivial=ok_all, counts=counts)
 
 
 # ------------------------------------------------------------------------------------------------------------
@@ -809,7 +875,7 @@ def bench_frame(case):
 
 
 def bench_config(model):
-    c = {"class": type(model).__name__, "features": None if model.features is None else list(model.features),
+    c = {"class": type(model).__name__, "features": typed(model.features),
          "dimension": model.dimension, "hyperparameters": {k: np.asarray(v).tolist() for k, v in (model.hyperparameters or {}).items()}}
     if hasattr(model, "with_random_slope_age"):
         c["with_random_slope_age"] = model.with_random_slope_age
